@@ -137,8 +137,14 @@ Fixpoint hex_of (l : bytes) : string :=
   | [] => EmptyString
   | b :: l' => String (hex_digit (b / 16)%N) (String (hex_digit (b mod 16)%N) (hex_of l'))
   end.
-Definition show_hex (l : bytes) : string := match l with [] => "-" | _ => hex_of l end.
 Definition show_N (n : N) : string := NilZero.string_of_uint (N.to_uint n).
+Definition blob_hash (l : bytes) : N := fold_left (fun h b => (h * 31 + b) mod 4294967296)%N l 0%N.
+(* byte strings longer than 64 bytes are shown as length and a rolling hash *)
+Definition show_hex (l : bytes) : string :=
+  match l with
+  | [] => "-"
+  | _ => if (64 <? blen l)%N then "#" ++ show_N (blen l) ++ "#" ++ show_N (blob_hash l) else hex_of l
+  end.
 Definition show_Z (z : Z) : string := NilZero.string_of_int (Z.to_int z).
 Definition show_bool (b : bool) : string := if b then "1" else "0".
 Definition nl : string := String (ascii_of_N 10) EmptyString.
